@@ -44,6 +44,9 @@ EXT_STOCHASTIC = {
     "scipy.sparse.linalg.svds": ("v0", "ARPACK"),
     "scipy.sparse.linalg.lobpcg": ("X", "ARPACK"),
 }
+# position of the seed parameter where the signature puts it early enough to be passed positionally (networkx 3.x:
+# fast_gnp_random_graph(n, p, seed=None, directed=False) and its siblings)
+EXT_SEED_POS = {"fast_gnp_random_graph": 2, "gnp_random_graph": 2, "erdos_renyi_graph": 2, "binomial_graph": 2, "gnm_random_graph": 2, "dense_gnm_random_graph": 2, "random_regular_graph": 2, "barabasi_albert_graph": 2, "watts_strogatz_graph": 3, "newman_watts_strogatz_graph": 3}
 # sources of run-to-run variation that no seed parameter can reach: (no seed keyword, family ENTROPY)
 for _p in ("os.urandom", "secrets.randbelow", "secrets.randbits", "secrets.choice", "secrets.token_bytes", "secrets.token_hex", "secrets.token_urlsafe",
            "uuid.uuid1", "uuid.uuid4", "time.time", "time.time_ns", "time.perf_counter", "time.perf_counter_ns", "time.monotonic", "time.monotonic_ns",
